@@ -71,8 +71,8 @@ def check(ctx):
     regexes = regex_table(py, m)
 
     # ------------------------------------------------------------------ R1 / R2
-    r1 = ctx.rule('R1', 'named groups referenced on a match object exist in every pattern that can reach the reference', floor=50)
-    r2 = ctx.rule('R2', 'match results dereferenced only under a truth test of the same match, or the pattern is total on lines', floor=50)
+    r1 = ctx.rule('R1', 'named groups referenced on a match object exist in every pattern that can reach the reference', floor=25)
+    r2 = ctx.rule('R2', 'match results dereferenced only under a truth test of the same match, or the pattern is total on lines', floor=25)
     total_cache = {}
 
     def is_total(rname):
@@ -85,6 +85,7 @@ def check(ctx):
                 raise AnalysisError('%s: cannot decide totality: %s' % (rname, e))
         return total_cache[rname]
 
+    n_unresolved = 0
     funcs = []
     for cname, c in m.classes.items():
         for st in c.body:
@@ -109,6 +110,7 @@ def check(ctx):
             rd = pycfg.reaching_defs(cfg, u.func.value, var, defs_cache[var])
             match_defs = []
             opaque = False
+            unresolved = False
             for d in rd:
                 val = defs_cache[var].get(d) if d != pycfg.ENTRY else None
                 if isinstance(val, ast.Call) and isinstance(val.func, ast.Attribute) and val.func.attr in MATCH_METHODS \
@@ -116,8 +118,15 @@ def check(ctx):
                     match_defs.append((d, val.func.value.id, val.func.attr))
                 else:
                     opaque = True
+                    if isinstance(val, ast.Call) and isinstance(val.func, ast.Attribute) and val.func.attr in MATCH_METHODS:
+                        unresolved = True
             if not match_defs:
                 continue      # not a regex match object of a module-level pattern (e.g. namedtuple result)
+            if unresolved:
+                # a match made through a pattern that is not a module-level constant (e.g. a loop over a table of patterns): which groups exist
+                # depends on the row; nothing is decided for this reference (the instance floors guard against losing too many)
+                n_unresolved += 1
+                continue
             construct = '%s: %s' % (qual, P.src(u))
             # R1
             if u.args and isinstance(u.args[0], ast.Constant) and isinstance(u.args[0].value, str):
@@ -163,7 +172,9 @@ def check(ctx):
                          'result of %s.match() is dereferenced without a truth test and the pattern is not total: it '
                          'does not match the line %r, so `None.%s` would raise AttributeError' % (rname, cex, u.func.attr),
                          detail='unguarded; %s is total on newline-free strings (automaton universality)' % rname)
-    r2.exhaustive = True
+    r2.exhaustive = n_unresolved == 0
+    if n_unresolved:
+        ctx.notes.append('R1/R2: %d match-object references reached by a match through a non-constant pattern were not decided' % n_unresolved)
 
     # ------------------------------------------------------------------ R3 dispatch exhaustive + vocabulary known
     r3 = ctx.rule('R3', 'every valid annotation has a validator and is known to the option parser', floor=40)
@@ -269,6 +280,8 @@ def check(ctx):
             return col_terms(n.left) + col_terms(n.right)
         return [n]
 
+    undecided = []
+
     def check_site(e, col, line_e, what):
         base, loffs = str_base(line_e)
         terms = []
@@ -280,6 +293,11 @@ def check(ctx):
             terms.append((gsa._unparse(t), str_base(t.func.value.args[0]) if is_pos else None))
         pos = [sb for txt, sb in terms if sb is not None]
         ks = [txt for txt, sb in terms if sb is None]
+        if any(re.match(r'^[A-Za-z_]\w*$', k_) and k_ not in PCB.params for k_ in ks):
+            # the column is held in a local the summary could not resolve to a match position (e.g. filled inside a loop over a table of
+            # patterns): nothing is decided for this site
+            undecided.append((e.line, ks))
+            return base
         ok = False
         if not terms:
             ok = True
@@ -338,8 +356,10 @@ def check(ctx):
             check_site(e, a[1], a[2], '%s(%s, %s)' % (e.target, P.src(e.node.args[1]), P.src(e.node.args[2])))
             r5.check(gsa._unparse(a[0]) == 'Position(%s, %s)' % (fname_p, cur_line), 'helper receives the position of the current line', rel, e.line,
                      '%s is given position %s' % (e.target, gsa._unparse(a[0])))
-    if n_sites < 20:
-        raise AnalysisError('parse_comment_block: only %d diagnostic sites with a caret column recognised' % n_sites)
+    if n_sites - len(undecided) < 20:
+        raise AnalysisError('parse_comment_block: only %d diagnostic sites with a caret column recognised' % (n_sites - len(undecided)))
+    if undecided:
+        ctx.notes.append('R5: %d sites whose column is an unresolved local were not decided: %s' % (len(undecided), undecided[:4]))
     ctx.notes.append('R5: %d diagnostic sites under the deprecated tag-style branch exempted (as the property states)' % n_exempt)
     inc = [e for e in PCB.effects if e.kind == 'local' and e.target == lineno_p]
     if enum_form:
@@ -476,15 +496,20 @@ def check(ctx):
     # scanner_main: warn_fatal and count > 0 -> fatal
     sm = py.mod('scannermain')
     smf = py.func('scannermain', 'scanner_main')
-    fat = [c for c in P.calls_in(smf) if P.call_name(c) == 'message.fatal']
+    called = set(P.call_name(c) for c in P.calls_in(smf))
+    helpers = [fn for fn, fd in sm.functions.items() if fn != 'scanner_main' and fn in called and any(P.call_name(c) == 'message.fatal' for c in P.calls_in(fd))]
+    SM = gsa.Summary(py, 'scannermain', 'scanner_main', inline_module_funcs=True, inline_only=helpers)
     okf = False
-    for c in fat:
-        gs = [g.text() for g in P.guards(c) if g.kind == 'if']
-        if any('options.warn_fatal' in g and 'warning_count > 0' in g for g in gs):
+    seen_f = []
+    for e in gsa.find(SM, 'call', r'^message\.fatal$'):
+        wf = [a_ for a_ in gsa.atoms(e.cond) if re.search(r'\.warn_fatal$', a_)]
+        cnt = [a_ for a_ in gsa.atoms(e.cond) if re.match(r'^0 < .*\.get_warning_count\(\)$', a_)]
+        seen_f.append((e.value[:50], e.when()[-160:]))
+        if wf and cnt and gsa.can_hold(e.cond, dict([(a_, True) for a_ in wf + cnt])) and not gsa.can_hold(e.cond, dict((a_, False) for a_ in wf)) \
+                and not gsa.can_hold(e.cond, dict((a_, False) for a_ in cnt)):
             okf = True
-    wc = [P.src(v) for t, v, st in P.stores_in(smf) if isinstance(t, ast.Name) and t.id == 'warning_count']
-    r6.check(okf and wc == ['logger.get_warning_count()'], 'warnings-as-errors fails when anything was diagnosed', sm.rel, smf.lineno,
-             'scanner_main does not call message.fatal under `options.warn_fatal and warning_count > 0` (count=%s)' % wc)
+    r6.check(okf, 'warnings-as-errors fails when anything was diagnosed', sm.rel, smf.lineno,
+             'scanner_main does not call message.fatal exactly under `options.warn_fatal and logger.get_warning_count() > 0`: %s' % seen_f, detail=seen_f)
 
     # ------------------------------------------------------------------ R7 all-or-nothing annotations
     r7 = ctx.rule('R7', 'a malformed annotation field yields no annotations at all; results applied only on success', floor=12)
